@@ -1,7 +1,8 @@
 (* C14 — property theorems only: statement, `exact <lemma>`, Print Assumptions. *)
 From GL Require Import Common.Bytes Pm.Class Pm.PmTypes Pm.RefMatch Pm.GoParse Pm.GoCompile Pm.GoVM
      Pm.Find Pm.Gsub Pm.Flat Pm.ClassFacts Pm.FindFacts Pm.GsubFacts Pm.ParseFacts Pm.CompileFacts
-     Pm.VMFacts Pm.RefFacts Pm.SetFacts Pm.PmRefine Pm.PrintFacts Pm.FindRefine Pm.ReplFacts.
+     Pm.VMFacts Pm.RefFacts Pm.SetFacts Pm.PmRefine Pm.PrintFacts Pm.FindRefine Pm.ReplFacts
+     Pm.BadRef Pm.ErrRefine.
 
 (* single character classes (%a %c %d %l %p %s %u %w %x %z, their complements, and every other
    escaped byte) agree with C's <ctype.h> in the "C" locale as used by lstrlib's match_class,
@@ -251,3 +252,67 @@ Theorem repl_scanner_spec :
       end.
 Proof. exact repl_scanner_spec_lemma. Qed.
 Print Assumptions repl_scanner_spec.
+
+(* ---- the malformed-pattern clause for back-references ("a malformed pattern yields a Lua error
+   or no match"), proved for ALL patterns, subjects and starts ---- *)
+
+(* bad_backref_is_error (VM level): for every pattern tree that pm.go's checkBackRefs accepts
+   (backrefs_ok: no %N between the parentheses of capture N) with back-reference numbers >= 1
+   (the parser produces 1..9), if the backtracking semantics of the pattern reaches an invalid
+   back-reference -- %N where capture N has not been opened yet (a FORWARD reference such as
+   "%1(a)", "(a)%2(b)") or does not exist -- then one recursiveVM run on the compiled program
+   ends in pm.Error "invalid capture index": never a match, never a Go panic, whatever branches
+   failed before (the lazily grown capture array cannot extend beyond the slots of the captures
+   preceding the reference, BadRef.lim). *)
+Theorem bad_backref_is_error :
+  forall (p : seqpat) (src : bytes) (sp0 : Z) (fuel : nat),
+    backrefs_ok p = true -> nums_pos (flatten_seq (patterns p)) ->
+    0 <= sp0 <= len src ->
+    1 + Z.of_nat fuel <= maxRecursionLevel ->
+    goVM src (goCompile p) fuel 0 sp0 <> VFuel ->
+    fm src (must_tail p) (flatten_seq (patterns p)) sp0 [] [] = FBad ->
+    goVM src (goCompile p) fuel 0 sp0 = VErr.
+Proof. exact goVM_bad. Qed.
+Print Assumptions bad_backref_is_error.
+
+(* vm_refines_ref_strict: vm_refines_ref with the error case made exact -- where lstrlib's match
+   raises an error on the pattern text (for a printable tree that can only be "invalid capture
+   index"), the VM run raises pm.Error; otherwise same outcome, end and captures as before *)
+Theorem vm_refines_ref_strict :
+  forall (p : seqpat) (text src : bytes) (sp0 : Z) (fuel : nat),
+    prints (tail_text (must_tail p)) (flatten_seq (patterns p)) text ->
+    backrefs_ok p = true ->
+    is_bytes src = true ->
+    ncaps_seq (patterns p) <= MAXCAPTURES ->
+    0 <= sp0 <= len src ->
+    1 + Z.of_nat fuel <= maxRecursionLevel ->
+    goVM src (goCompile p) fuel 0 sp0 <> VFuel ->
+    let pat := head_text (must_head p) ++ text in
+    vm_ref_rel_strict src sp0 (ncaps_seq (patterns p))
+               (goVM src (goCompile p) fuel 0 sp0)
+               (ref_match pat src sp0 (len (head_text (must_head p)))).
+Proof. exact vm_refines_ref_strict_lemma. Qed.
+Print Assumptions vm_refines_ref_strict.
+
+(* END TO END, errors included: find_refines_ref / match_refines_ref without the hypothesis that
+   the reference raises no error.  For a printable pattern tree that parses back to itself and
+   passes checkBackRefs, string.find / string.match of the transcription return exactly what
+   lstrlib's str_find_aux returns for every byte subject and init -- positions, captures, nil,
+   AND the "invalid capture index" error, raised at the same match attempt (a reference that is
+   never reached gives no error in either). *)
+Theorem find_refines_ref_total :
+  forall (p : seqpat) (pb s : bytes) (init : Z),
+    seq_okb p = true -> print_seq p = Some pb -> goParse pb = ParseOk p -> backrefs_ok p = true ->
+    is_bytes s = true -> 1 + Z.of_nat (vm_fuel s (goCompile p)) <= maxRecursionLevel ->
+    0 < len pb ->
+    strFind s pb (Some init) = ref_find s pb init.
+Proof. exact find_refines_ref_total_lemma. Qed.
+Print Assumptions find_refines_ref_total.
+
+Theorem match_refines_ref_total :
+  forall (p : seqpat) (pb s : bytes) (init : Z),
+    seq_okb p = true -> print_seq p = Some pb -> goParse pb = ParseOk p -> backrefs_ok p = true ->
+    is_bytes s = true -> 1 + Z.of_nat (vm_fuel s (goCompile p)) <= maxRecursionLevel ->
+    strMatch s pb (Some init) = ref_smatch s pb init.
+Proof. exact match_refines_ref_total_lemma. Qed.
+Print Assumptions match_refines_ref_total.
